@@ -196,8 +196,126 @@ def construct_compound(th, kind):
     return build
 
 
+
+# ---------------------------------------------------------------- C12: only / exclude / without_extras
+from pyvc.theories.marker import X, name_of, in_names, inside, SINGLE, ANY, EMPTY   # noqa: E402
+from pyvc.values import STR   # noqa: E402
+
+SM = "dep_logic.markers.single:SingleMarker."
+NAMES_SHAPE = ListS(STR, is_tuple=True)
+
+
+def names_axiom(names):
+    """definition of `in_names` for the marker_names tuple of this call"""
+    s = z3.String(fresh_name("nm"))
+    i = z3.Int(fresh_name("ni"))
+    return z3.ForAll([s], in_names(s) == z3.Exists([i], z3.And(0 <= i, i < names.n, z3.Select(names.arr, i) == s)))
+
+
+def exclude_law(ex, m, N):
+    """what exclude(N) promises at a call site (the part of C12 proved for every class): the result never mentions N and
+    mentions nothing m does not mention"""
+    r = z3.Const(fresh_name("excl"), MK)
+    ex.assume(z3.Implies(N == X, z3.Not(uses(r))))
+    ex.assume(z3.Implies(uses(r), uses(m)))
+    return r
+
+
+def only_law(ex, m):
+    r = z3.Const(fresh_name("only"), MK)
+    ex.assume(z3.Implies(z3.Not(in_names(X)), z3.Not(uses(r))))
+    ex.assume(z3.Implies(uses(r), uses(m)))
+    ex.assume(z3.Implies(ev(m), ev(r)))
+    ex.assume(z3.Implies(inside(m), ev(r) == ev(m)))
+    return r
+
+
+class Exclude(Contract):
+    def __init__(self, th, owner, kinds, q, method="exclude"):
+        self.th, self.kinds, self.method = th, kinds, method
+        self.target = q + method
+        self.owner = owner
+
+    def cases(self, th):
+        for k in self.kinds:
+            m = th.shape.fresh("self")
+            if self.method == "exclude":
+                yield k, [m, z3.String(fresh_name("N"))], [is_cls(m.term, k)]
+            else:
+                yield k, [m], [is_cls(m.term, k)]
+
+    def allowed_raise(self, ex, args, exc):
+        return z3.BoolVal(False)
+
+    def ensures(self, ex, args, result):
+        if not isinstance(result, AbsObj):
+            return [("returns-marker", z3.BoolVal(False))]
+        m, r = args[0].term, result.term
+        N = args[1] if self.method == "exclude" else z3.StringVal("extra")
+        cl = [("C12.exclude.never-mentions-removed", z3.Implies(N == X, z3.Not(uses(r)))),
+              ("C12.exclude.mentions-nothing-new", z3.Implies(uses(r), uses(m)))]
+        if self.owner == "single":
+            cl.append(("C12.exclude.unchanged-when-absent", z3.Implies(name_of(m) != N, r == m)))
+        if self.owner in ("any", "empty"):
+            cl.append(("C12.exclude.unchanged-when-absent", r == m))
+        return cl
+
+    def loop0(self, st):
+        new = st.loc("new_markers")
+        N = st.loc("marker_name")
+        return [("len", new.n >= 0), ("never-mentions-removed", z3.Implies(N == X, fa(new, lambda t: z3.Not(uses(t))))),
+                ("mentions-nothing-new", z3.Implies(ex_(new, uses), uses(st.loc("self").term)))]
+
+
+class Only(Contract):
+    def __init__(self, th, owner, kinds, q):
+        self.th, self.kinds, self.owner = th, kinds, owner
+        self.target = q + "only"
+
+    def cases(self, th):
+        from pyvc.calls import StarArgs
+        for k in self.kinds:
+            m = th.shape.fresh("self")
+            names = NAMES_SHAPE.fresh("marker_names")
+            yield k, [m, StarArgs(names)], [is_cls(m.term, k), names.n >= 0, names_axiom(names)]
+
+    def allowed_raise(self, ex, args, exc):
+        return z3.BoolVal(False)
+
+    def ensures(self, ex, args, result):
+        if not isinstance(result, AbsObj):
+            return [("returns-marker", z3.BoolVal(False))]
+        m, r = args[0].term, result.term
+        cl = [("C12.only.mentions-only-given-names", z3.Implies(z3.Not(in_names(X)), z3.Not(uses(r)))),
+              ("C12.only.mentions-nothing-new", z3.Implies(uses(r), uses(m))),
+              ("C12.only.implied-by-marker", z3.Implies(ev(m), ev(r))),
+              ("C12.only.same-when-only-those-names", z3.Implies(inside(m), ev(r) == ev(m)))]
+        return cl
+
+    def comp(self, st):
+        kind = self.kinds[0]
+        acc = st.loc("__acc")
+        me = st.loc("self").term
+        K = AList(None, kids(me), z3.IntVal(0), nkids(me))
+        k = st.k
+        i = z3.Int(fresh_name("ci"))
+        mono = z3.Implies(fold(kind, K, hi=k), fold(kind, acc)) if kind == "MultiMarker" else z3.Implies(ex_(K, ev, hi=k), ex_(acc, ev))
+        return [("len", acc.n == k), ("only-given-names", z3.Implies(z3.Not(in_names(X)), fa(acc, lambda t: z3.Not(uses(t))))),
+                ("nothing-new", z3.Implies(ex_(acc, uses), ex_(K, uses, hi=k))), ("implied", mono),
+                ("same", z3.Implies(fa(K, inside, hi=k), z3.ForAll([i], z3.Implies(z3.And(0 <= i, i < k), ev(at(acc, i)) == ev(at(K, i))))))]
+
+
+def c12_contracts(th):
+    out = [Exclude(th, "single", SINGLE, SM), Exclude(th, "single", SINGLE, SM, "without_extras"), Only(th, "single", SINGLE, SM)]
+    for owner, kind, q in (("multi", "MultiMarker", MM), ("union", "MarkerUnion", MU)):
+        out += [Exclude(th, owner, [kind], q), Exclude(th, owner, [kind], q, "without_extras"), Only(th, owner, [kind], q)]
+    for owner, kind, q in (("any", "AnyMarker", "dep_logic.markers.any:AnyMarker."), ("empty", "EmptyMarker", "dep_logic.markers.empty:EmptyMarker.")):
+        out += [Exclude(th, owner, [kind], q), Exclude(th, owner, [kind], q, "without_extras"), Only(th, owner, [kind], q)]
+    return out
+
+
 def all_contracts(th):
-    cs = [FlattenItems(th), Of(th, "MultiMarker"), Of(th, "MarkerUnion")]
+    cs = [FlattenItems(th), Of(th, "MultiMarker"), Of(th, "MarkerUnion")] + c12_contracts(th)
     return {c.target: c for c in cs}
 
 
@@ -208,6 +326,12 @@ def install(th, contracts):
     th.method_contracts["union_simplify"] = simplify_contract(th, "MultiMarker")
     th.construct_law["MultiMarker"] = construct_compound(th, "MultiMarker")
     th.construct_law["MarkerUnion"] = construct_compound(th, "MarkerUnion")
+    th.method_contracts["exclude"] = lambda ex, o, args: AbsObj(exclude_law(ex, o.term, args[0] if not isinstance(args[0], str) else z3.StringVal(args[0])), th)
+    th.method_contracts["without_extras"] = lambda ex, o, args: AbsObj(exclude_law(ex, o.term, z3.StringVal("extra")), th)
+    th.method_contracts["only"] = lambda ex, o, args: AbsObj(only_law(ex, o.term), th)
+    for kind, q in (("MultiMarker", MM), ("MarkerUnion", MU)):
+        pass
+    th.method_contracts["of"] = None
 
 
 def loop_specs(th):
@@ -220,4 +344,10 @@ def loop_specs(th):
         specs[(q + "of", 0)] = LoopSpec({"old_markers": L, "new_markers": L}, c.outer)
         specs[(q + "of", 1)] = LoopSpec({"new_markers": L}, c.middle)
         specs[(q + "of", 2)] = LoopSpec({"new_markers": L, flag: BOOL}, c.inner)
+    for c in c12_contracts(th):
+        if c.owner in ("multi", "union"):
+            if isinstance(c, Exclude) and c.method == "exclude":
+                specs[(c.target, 0)] = LoopSpec({"new_markers": L}, c.loop0)
+            if isinstance(c, Only):
+                specs[(c.target, 0)] = (L, [LoopSpec({"__acc": L}, c.comp)])
     return specs
